@@ -351,6 +351,13 @@ func numEqualsNumeral(numV reflect.Value, s string) bool {
 	if err != nil {
 		return false
 	}
+	if len(s) > 800 {
+		// strconv.ParseFloat keeps 800 digits and loses the scale of a longer
+		// integer part: round the exact value instead
+		if r, ok := new(big.Rat).SetString(s); ok {
+			f, _ = r.Float64()
+		}
+	}
 	switch numV.Kind() {
 	case reflect.Float32, reflect.Float64:
 		return equalNums(numV, reflect.ValueOf(f))
